@@ -1,6 +1,7 @@
 import SigmaVerif.Lemmas.C07Rule
-/-! # C07 lemmas: correlation rules — every section of `from_dict` returns; `__post_init__` raises
-Sigma errors only -/
+/-! # C07 lemmas: correlation rules — every section of `from_dict` returns; `_validate` raises
+Sigma errors only; both loading modes as functions of one error list (the errors `from_dict`
+collects followed by the error of the constructor's validation) -/
 namespace SigmaVerif.Load
 
 macro "sig_leaves" : tactic => `(tactic| ((repeat' split) <;> simp))
@@ -176,7 +177,7 @@ theorem corrSections_spec (m : Dict) :
   simp only [ht, ok_bind, hr, hg, hgb, hts, hal, hcd]
   exact ⟨_, _, _, _, rfl, hrs⟩
 
-/-! ## `__post_init__` -/
+/-! ## `_validate` and `__post_init__` -/
 theorem forEach_pyHash_str : ∀ rs : List Y, allStr rs = true → forEach pyHash rs = .ok ()
   | [], _ => rfl
   | r :: rs, h => by
@@ -193,9 +194,9 @@ theorem allStr_filter (q : Y → Bool) (l : List Y) (h : allStr l = true) : allS
   exact h x (List.mem_filter.mp hx).1
 
 /-- the constructor's cross-field validation raises Sigma errors only -/
-theorem corrPostInit_noPy (typ : Option CorrType) (rules : Option (List Y)) (cond : CorrCond)
-    (hr : ∀ rs, rules = some rs → allStr rs = true) : NoPy (corrPostInit typ rules cond) := by
-  unfold corrPostInit
+theorem corrValidate_noPy (typ : Option CorrType) (rules : Option (List Y)) (cond : CorrCond)
+    (hr : ∀ rs, rules = some rs → allStr rs = true) : NoPy (corrValidate typ rules cond) := by
+  unfold corrValidate
   split
   · simp
   · split
@@ -223,10 +224,19 @@ def corrParts (d : Y) : Option CorrType × List Y × CorrCond × List SigmaCls :
 /-- the collected error list of a correlation rule document -/
 def corrErrs (d : Y) : List SigmaCls := docErrs d ++ commonErrs (docMap d) ++ (corrParts d).2.2.2
 
-/-- the constructor call at the end of `from_dict` (cross-field validation of `__post_init__`) -/
+/-- the cross-field validation (`_validate`) on the values `from_dict` hands to the constructor -/
 def corrPost (d : Y) : R Unit :=
   let p := corrParts d
-  corrPostInit p.1 (if p.2.1.isEmpty && p.2.2.1.isExtended then none else some p.2.1) p.2.2.1
+  corrValidate p.1 (if p.2.1.isEmpty && p.2.2.1.isExtended then none else some p.2.1) p.2.2.1
+
+/-- what the validation contributes to the error list: its Sigma error, if it raises one -/
+def sigmaErrOf (x : R Unit) : List SigmaCls := match x with | .error (.sigma c) => [c] | _ => []
+
+/-- the error of the constructor's validation of document `d` (at most one) -/
+def postErrs (d : Y) : List SigmaCls := sigmaErrOf (corrPost d)
+
+/-- all errors of a correlation rule document: the ones `from_dict` collects, then the constructor's -/
+def corrAllErrs (d : Y) : List SigmaCls := corrErrs d ++ postErrs d
 
 theorem corrSections_eq (d : Y) : corrSections (docMap d) = .ok (corrParts d) := by
   obtain ⟨t, r, c, e, h, _⟩ := corrSections_spec (docMap d)
@@ -238,29 +248,64 @@ theorem corrParts_rules_str (d : Y) : allStr (corrParts d).2.1 = true := by
 
 theorem corrPost_noPy (d : Y) : NoPy (corrPost d) := by
   unfold corrPost
-  apply corrPostInit_noPy
+  apply corrValidate_noPy
   intro rs hrs
   split at hrs
   · cases hrs
   · cases hrs; exact corrParts_rules_str d
 
-theorem corr_collect_eq (d : Y) : corrFromDict true d = (corrPost d >>= fun _ => pure (corrErrs d)) := by
-  have hs := corrSections_eq d
-  cases d <;> simp only [docMap] at hs <;>
-    simp [corrFromDict, documentAsMap, commonParams_true, hs, corrPost, corrErrs, docErrs, docMap]
+/-- collecting mode: the constructor returns the errors it received plus the validation error -/
+theorem corrPostInit_collect (typ : Option CorrType) (rules : Option (List Y)) (cond : CorrCond) (errs : List SigmaCls)
+    (h : NoPy (corrValidate typ rules cond)) :
+    corrPostInit true typ rules cond errs = .ok (errs ++ sigmaErrOf (corrValidate typ rules cond)) := by
+  unfold corrPostInit
+  cases hv : corrValidate typ rules cond with
+  | ok u => simp [sigmaErrOf]
+  | error e =>
+    cases e with
+    | sigma c => simp [sigmaErrOf]
+    | py c => exact absurd (h c hv) (by simp)
 
-theorem corr_strict_eq (d : Y) :
-    corrFromDict false d = (strictOf (corrErrs d) >>= fun _ => corrPost d >>= fun _ => pure []) := by
+/-- strict mode: the validation error is raised -/
+theorem corrPostInit_strict (typ : Option CorrType) (rules : Option (List Y)) (cond : CorrCond) (errs : List SigmaCls) :
+    corrPostInit false typ rules cond errs = (corrValidate typ rules cond >>= fun _ => pure errs) := by
+  unfold corrPostInit
+  cases hv : corrValidate typ rules cond with
+  | ok u => simp
+  | error e => cases e <;> simp
+
+theorem corr_collect_eq (d : Y) : corrFromDict true d = .ok (corrAllErrs d) := by
   have hs := corrSections_eq d
+  have hn : NoPy (corrPost d) := corrPost_noPy d
+  have hp := fun errs => corrPostInit_collect (corrParts d).1
+    (if (corrParts d).2.1.isEmpty && (corrParts d).2.2.1.isExtended then none else some (corrParts d).2.1) (corrParts d).2.2.1 errs hn
+  cases d <;> simp only [docMap] at hs <;>
+    simp only [corrFromDict, documentAsMap, commonParams_true, hs, pure_eq, ok_bind, tailRaise_true, hp, corrAllErrs, postErrs,
+      corrPost, corrErrs, docErrs, docMap, Bool.not_true, Bool.false_eq_true, if_false]
+
+theorem corr_strict_eq (d : Y) : corrFromDict false d = strictOf (corrAllErrs d) := by
+  have hs := corrSections_eq d
+  have hn : NoPy (corrPost d) := corrPost_noPy d
   cases d
   case map m =>
     simp only [docMap] at hs
-    simp only [corrFromDict, documentAsMap, pure_eq, ok_bind, commonParams_false, corrErrs, docErrs, docMap, corrPost]
+    simp only [corrFromDict, documentAsMap, pure_eq, ok_bind, commonParams_false, corrAllErrs, corrErrs, docErrs, docMap,
+      postErrs, List.nil_append]
     cases hc : commonErrs m with
     | nil =>
       simp only [strictOf, ok_bind, hs, List.nil_append, tailRaise_false]
-      cases he : (corrParts (Y.map m)).2.2.2 <;> simp
+      cases he : (corrParts (Y.map m)).2.2.2 with
+      | nil =>
+        simp only [ok_bind, corrPostInit_strict, List.nil_append]
+        change (corrPost (Y.map m) >>= fun _ => pure []) = _
+        cases hv : corrPost (Y.map m) with
+        | ok u => simp [sigmaErrOf]
+        | error e =>
+          cases e with
+          | sigma c => simp [sigmaErrOf]
+          | py c => exact absurd (hn c hv) (by simp)
+      | cons e es => simp
     | cons e es => simp [strictOf]
-  all_goals simp [corrFromDict, documentAsMap, corrErrs, docErrs, strictOf]
+  all_goals simp [corrFromDict, documentAsMap, corrAllErrs, corrErrs, docErrs, strictOf]
 
 end SigmaVerif.Load
